@@ -27,7 +27,7 @@ for p in props:
         "evidence_file": f"/verif/evidence/{pid}.json",
         "replay_cmd_template": f"./check {pid} --replay {{path}}",
         "engine": "vh-monitors",
-        "level_claimed": {"category": "exploration", "text": t["level"], "design_ref": f"DESIGN.md section 3, {pid}"},
+        "level_claimed": {"category": "exploration", "text": t["level"], "design_ref": f"DESIGN.md section 4 (row {pid}), sections 5.2a/5.2b (workload classes)"},
         "level_note": t["note"],
         "technique": t["technique"],
     })
